@@ -11,6 +11,7 @@ import (
 	"math/rand"
 	"sort"
 	"strconv"
+	"sync"
 
 	crypto "github.com/onflow/crypto"
 	"verifharness/ref"
@@ -934,14 +935,17 @@ func (s *Sim) judgeKeys() {
 	rec(0, nil)
 }
 
-// g2Flow: does the library write Fp2 as c0||c1 (finding D5, judged by C05)?  Detected once from the key of scalar 1.
-var g2Flow = func() bool {
-	one, err := crypto.DecodePrivateKey(crypto.BLSBLS12381, append(make([]byte, 31), 1))
-	if err != nil {
-		return true
-	}
-	return string(one.PublicKey().Encode()) != string(ref.G2Gen.Compress(true))
-}()
+// g2Flow: does the library write Fp2 as c0||c1 (finding D5, judged by C05)?  Detected once, on first use, from the key of scalar 1.
+var g2FlowOnce sync.Once
+var g2FlowVal bool
+
+func g2Flow() bool {
+	g2FlowOnce.Do(func() {
+		one, err := crypto.DecodePrivateKey(crypto.BLSBLS12381, append(make([]byte, 31), 1))
+		g2FlowVal = err != nil || string(one.PublicKey().Encode()) != string(ref.G2Gen.Compress(true))
+	})
+	return g2FlowVal
+}
 
 // judgeKeysByReference re-checks the key-consistency clause of C07 with the independent arithmetic of harness/ref on the
 // bytes the first honest participant returned: the n public key shares (those of Byzantine participants included) lie on one
@@ -954,7 +958,7 @@ func (s *Sim) judgeKeysByReference(add func(pred, detail string)) {
 	s.res.RefKeys++
 	e0 := s.ended[s.honest[0]]
 	dec := func(k crypto.PublicKey) (ref.G2, bool) {
-		p, err := ref.G2Decompress(k.Encode(), !g2Flow)
+		p, err := ref.G2Decompress(k.Encode(), !g2Flow())
 		return p, err == nil && p.InSubgroup()
 	}
 	gk, ok := dec(e0.pk)
